@@ -10,13 +10,14 @@ label alphabet of the enumeration.  `san`, `host`, labels are arbitrary code-poi
 A real host name never contains `*`; where a clause can only be stated for such hosts the hypothesis
 `star ∉ host` is explicit (the counter-examples with a literal star in the host are given).
 
-Two clauses hold only in a restricted form on the unchanged code (see `known_findings/C08.json` and
-`notes/C08.md`); they are the `…_partial` theorems, each followed by the witness that refutes the
-full statement:
+Two clauses held only in a restricted form before the repairs of `ssl_match_hostname.py` (see the
+"Repaired defects" section of `notes/C08.md`, `known_findings/C08.json`); on the repaired code they are
+proved at full strength, and the concrete inputs that used to refute them are now positive theorems:
 
-* an exact dNSName match is not reached when an *earlier* dNSName has ≥ 2 stars in its left-most
-  label (`C08_exact_san_accepts_partial`);
-* an A-label is recognised only by the lower-case prefix `xn--` (`C08_rejects_wildcard_in_alabel_partial`).
+* an exact dNSName match is reached wherever it stands in the list, also behind a dNSName with ≥ 2
+  stars in its left-most label (`C08_exact_san_accepts`, `C08_exact_san_after_multi_wildcard_ok`);
+* an A-label is recognised by the ACE prefix `xn--` in any capitalisation
+  (`C08_rejects_wildcard_in_alabel`, `C08_alabel_uppercase_prefix_ok`).
 -/
 namespace U3.Props
 open U3 U3.Hostname
@@ -182,19 +183,12 @@ theorem C08_rejects_wildcard_empty_label {san host : Str} {remainder hs' : List 
 example : dnsnameMatch (lit "*.a") (lit ".a") = .ok false := by decide
 example : dnsnameMatch (lit "*") (lit "") = .ok false := by decide
 
-/- Full statement (RFC 5890 2.3.2.5: the ACE prefix is "xn--" *or any capitalisation thereof*):
-
-     splitOn1 dot san = leftmost :: remainder → star ∈ leftmost →
-     lower (leftmost.take 4) = xnPrefix → star ∉ host → dnsnameMatch san host ≠ .ok true
-
-   is FALSE for the code as it stands (witness below): `startswith("xn--")` is case-sensitive while
-   the regex is IGNORECASE.  Proved: the clause for the lower-case spelling of the prefix, on the
-   entry's side or (for partial wildcards) on the host's side. -/
-/-- RFC 6125 6.4.3 (3): a wildcard embedded in an A-label (`xn--…`) is taken literally, so such an
-entry accepts no genuine host name. -/
-theorem C08_rejects_wildcard_in_alabel_partial {san host leftmost : Str} {remainder : List Str}
+/-- RFC 6125 6.4.3 (3): a wildcard embedded in an A-label is taken literally, so such an entry accepts
+no genuine host name.  The A-label is recognised by its ACE prefix "xn--" *in any capitalisation*
+(RFC 5890 2.3.2.5), on the entry's side or (for partial wildcards) on the host's side. -/
+theorem C08_rejects_wildcard_in_alabel {san host leftmost : Str} {remainder : List Str}
     (hs : splitOn1 dot san = leftmost :: remainder) (hw : star ∈ leftmost)
-    (hx : xnPrefix.isPrefixOf leftmost = true ∨ (xnPrefix.isPrefixOf host = true ∧ leftmost ≠ [star]))
+    (hx : lower (leftmost.take 4) = xnPrefix ∨ (lower (host.take 4) = xnPrefix ∧ leftmost ≠ [star]))
     (hh : star ∉ host) :
     dnsnameMatch san host ≠ .ok true := by
   have hn : san ≠ [] := by
@@ -206,10 +200,10 @@ theorem C08_rejects_wildcard_in_alabel_partial {san host leftmost : Str} {remain
     rcases hx with hx | hx
     · rintro rfl; revert hx; decide
     · exact hx.2
-  have hor : (xnPrefix.isPrefixOf leftmost || xnPrefix.isPrefixOf host) = true := by
+  have hor : (xnPrefix.isPrefixOf (lower leftmost) || xnPrefix.isPrefixOf (lower host)) = true := by
     rcases hx with hx | hx
-    · simp [hx]
-    · simp [hx.1]
+    · simp [(xnPrefix_lower_iff leftmost).2 hx]
+    · simp [(xnPrefix_lower_iff host).2 hx.1]
   rw [dnsnameMatch_eq hn hs]
   by_cases h1 : leftmost.count star > 1
   · rw [if_pos h1]; simp
@@ -222,9 +216,17 @@ theorem C08_rejects_wildcard_in_alabel_partial {san host leftmost : Str} {remain
 
 example : dnsnameMatch (lit "xn--a*.b") (lit "xn--ab.b") = .ok false := by decide
 example : dnsnameMatch (lit "x*.b") (lit "xn--ab.b") = .ok false := by decide
-/-- witness against the full statement (known finding `alabel-wildcard-uppercase-ace-prefix`) -/
-theorem C08_alabel_uppercase_prefix_witness :
-    dnsnameMatch (lit "XN--a*.b") (lit "XN--ab.b") = .ok true ∧
+-- the hypotheses are satisfiable by an upper-case and by a mixed-case prefix, on either side
+example : splitOn1 dot (lit "XN--a*.b") = lit "XN--a*" :: [lit "b"] ∧ star ∈ lit "XN--a*" ∧
+    lower ((lit "XN--a*").take 4) = xnPrefix ∧ star ∉ lit "XN--ab.b" := by decide
+example : lower ((lit "Xn--ab.b").take 4) = xnPrefix ∧ lit "x*" ≠ [star] ∧
+    dnsnameMatch (lit "x*.b") (lit "Xn--ab.b") = .ok false := by decide
+-- without an ACE prefix on either side the partial wildcard is honoured (the clause is not vacuous)
+example : dnsnameMatch (lit "xm--a*.b") (lit "xm--ab.b") = .ok true := by decide
+/-- the input of the former finding `alabel-wildcard-uppercase-ace-prefix` (it used to be accepted):
+the wildcard inside an A-label spelled with an upper-case ACE prefix is not honoured -/
+theorem C08_alabel_uppercase_prefix_ok :
+    dnsnameMatch (lit "XN--a*.b") (lit "XN--ab.b") = .ok false ∧
     dnsnameMatch (lit "xn--a*.b") (lit "XN--ab.b") = .ok false := by decide
 
 /-! ## whole certificates (`match_hostname`) -/
@@ -316,42 +318,52 @@ theorem C08_rejects_cn_when_not_enabled {cert : Cert} {host : Str} (subject' : L
 example : matchHostname (some ⟨[], [[(kCN, lit "a.b")]]⟩) (lit "a.b") false = .error .certificateError ∧
     matchHostname (some ⟨[], [[(kCN, lit "a.b")]]⟩) (lit "a.b") true = .ok () := by decide
 
-/- Full statement: `(kDNS, v) ∈ cert.san → star ∉ v → v ≠ [] → lower v = lower host → hostIpOf host = none →
-   matchHostname (some cert) host cn = .ok ()` is FALSE for the code as it stands (witness below): an
-   earlier dNSName with ≥ 2 stars in its left-most label raises `CertificateError` out of the loop.
-   Proved: the statement for certificates whose *earlier* entries do not raise. -/
-/-- An exact dNSName entry makes `match_hostname` succeed for a DNS host, provided no entry in front
-of it makes `_dnsname_match` raise. -/
-theorem C08_exact_san_accepts_partial {front back : List (Str × Str)} {subject : List (List (Str × Str))}
-    {v host : Str} {cn : Bool}
-    (hv : v ≠ []) (hs : star ∉ v) (heq : lower v = lower host) (hdns : hostIpOf host = none)
-    (hfront : ∀ e ∈ front, e.1 = kDNS → ∀ x, dnsnameMatch e.2 host ≠ .error x) :
-    matchHostname (some ⟨front ++ (kDNS, v) :: back, subject⟩) host cn = .ok () := by
+/-- An exact dNSName entry makes `match_hostname` succeed for a DNS host — wherever the entry stands
+in the list and whatever the other entries are (a malformed dNSName in front of it, which makes
+`_dnsname_match` raise, is passed over). -/
+theorem C08_exact_san_accepts {cert : Cert} {v host : Str} {cn : Bool}
+    (hmem : (kDNS, v) ∈ cert.san) (hv : v ≠ []) (hs : star ∉ v) (heq : lower v = lower host)
+    (hdns : hostIpOf host = none) :
+    matchHostname (some cert) host cn = .ok () := by
   have hm := C08_exact_accepts hv hs heq
-  have : ∀ names, sanLoop host none (front ++ (kDNS, v) :: back) names = .ok none := by
-    induction front with
-    | nil => intro names; rw [List.nil_append, sanLoop]; simp [hm]
-    | cons e rest ih =>
-      intro names
-      obtain ⟨key, value⟩ := e
-      have ih' := ih (fun e he => hfront e (List.mem_cons_of_mem _ he))
-      rw [List.cons_append, sanLoop.eq_def]
-      simp only
-      split
-      · rename_i hk
-        cases hd : dnsnameMatch value host with
-        | error x => exact absurd hd (hfront (key, value) (by simp) hk x)
-        | ok b => cases b <;> simp [ih']
-      · split <;> simp [ih']
+  have : sanLoop host none cert.san [] = .ok none := sanLoop_dns_host_iff.2 ⟨(kDNS, v), hmem, rfl, hm⟩
   unfold matchHostname
   simp [hdns, this]
 
 example : matchHostname (some ⟨[(kDNS, lit "*.x"), (kIP, lit "::1")] ++ (kDNS, lit "b.a") :: [], []⟩) (lit "B.A")
     = .ok () := by decide
-/-- witness against the full statement (known finding `accept-blocked-by-earlier-multi-wildcard-san`) -/
-theorem C08_exact_san_blocked_witness :
-    matchHostname (some ⟨[(kDNS, lit "**"), (kDNS, lit "b")], []⟩) (lit "b") = .error .certificateError ∧
+example : (kDNS, lit "b.a") ∈ [(kDNS, lit "a**.x"), (kIP, lit "<invalid>"), (kDNS, lit "b.a")] ∧
+    hostIpOf (lit "B.A") = none ∧ lower (lit "b.a") = lower (lit "B.A") := by decide
+/-- the input of the former finding `accept-blocked-by-earlier-multi-wildcard-san` (the first
+certificate used to be refused with `CertificateError`): the order of the entries does not matter -/
+theorem C08_exact_san_after_multi_wildcard_ok :
+    matchHostname (some ⟨[(kDNS, lit "**"), (kDNS, lit "b")], []⟩) (lit "b") = .ok () ∧
     matchHostname (some ⟨[(kDNS, lit "b"), (kDNS, lit "**")], []⟩) (lit "b") = .ok () := by decide
+
+/-- Passing over malformed entries never turns into acceptance: for a DNS host (commonName not
+enabled) `match_hostname` succeeds **iff** some dNSName entry is accepted by `_dnsname_match` — so
+every reject clause proved above for a single entry carries over to whole certificates; a
+certificate all of whose entries are malformed or non-matching is refused with `CertificateError`. -/
+theorem C08_dns_host_accepts_iff_entry_matches {cert : Cert} {host : Str} (hdns : hostIpOf host = none) :
+    (matchHostname (some cert) host false = .ok () ↔
+      ∃ e ∈ cert.san, e.1 = kDNS ∧ dnsnameMatch e.2 host = .ok true) ∧
+    (matchHostname (some cert) host false ≠ .ok () → matchHostname (some cert) host false = .error .certificateError) := by
+  have key := sanLoop_dns_host_iff (host := host) (san := cert.san) (names := [])
+  unfold matchHostname
+  simp only [hdns]
+  cases hl : sanLoop host none cert.san [] with
+  | error x => exact absurd hl (sanLoop_dns_host_no_error x)
+  | ok r =>
+    cases r with
+    | none => exact ⟨⟨fun _ => key.1 hl, fun _ => rfl⟩, fun h => absurd rfl h⟩
+    | some names =>
+      have hno : ¬ ∃ e ∈ cert.san, e.1 = kDNS ∧ dnsnameMatch e.2 host = .ok true := by
+        intro h; rw [key.2 h] at hl; cases hl
+      simp [hno]
+
+example : matchHostname (some ⟨[(kDNS, lit "**")], []⟩) (lit "b") = .error .certificateError ∧
+    matchHostname (some ⟨[(kDNS, lit "**"), (kDNS, lit "a*b*"), (kDNS, lit "c")], []⟩) (lit "b") = .error .certificateError ∧
+    matchHostname (some ⟨[], [[(kCN, lit "**"), (kCN, lit "b")]]⟩) (lit "b") true = .ok () := by decide
 
 /-- No certificate (`None` / `{}`): never accepted. -/
 theorem C08_rejects_missing_certificate (host : Str) (cn : Bool) : matchHostname none host cn = .error .valueError := rfl
